@@ -447,6 +447,7 @@ static inline int myth_create_ex_body(myth_thread_t * id,
   size_t stk_size = stack_size - sizeof(void*) * 2;
   if (child_first){
     myth_make_context_empty(&new_thread->context, stk, stk_size);
+    MYTH_VERIF_EV2("MkCtx", VD(new_thread), 0);
 
 #if MYTH_CREATE_PROF_DETAIL
     t1 = myth_get_rdtsc();
@@ -474,6 +475,7 @@ static inline int myth_create_ex_body(myth_thread_t * id,
     //Create context
     myth_make_context_voidcall(&new_thread->context, myth_entry_point,
 			       stk, stk_size);
+    MYTH_VERIF_EV2("MkCtx", VD(new_thread), 1);
 
 #if MYTH_CREATE_PROF_DETAIL
     t1 = myth_get_rdtsc();
